@@ -40,6 +40,7 @@ func init() {
 			{Name: "valid", Run: runValid},
 			{Name: "pairs", Run: runPairs},
 			{Name: "literals", Run: runLiterals},
+			{Name: "earlyerrors", Run: runEarlyErrors},
 		},
 		Assumptions: []string{
 			"ref/syntax is a faithful recogniser of ES5.1 programs (see C03); only its reject verdicts are used here, and where it is deliberately lenient (call expressions as assignment targets, regexp bodies with ] { } or incomplete escapes) no claim is made",
@@ -196,7 +197,7 @@ func (h *harness) mismatch(m engine.Mismatch) {
 	if dbg := os.Getenv("C04_DEBUG"); dbg != "" { // DEVONLY
 		f, _ := os.OpenFile(dbg, os.O_APPEND|os.O_CREATE|os.O_WRONLY, 0o644) // DEVONLY
 		fmt.Fprintf(f, "%s\t%q\t%s\t%s\n", cls, m.Input, m.Observed, m.Note) // DEVONLY
-		f.Close() // DEVONLY
+		f.Close()                                                            // DEVONLY
 	} // DEVONLY
 	h.r.Mismatch(m)
 }
